@@ -1,7 +1,7 @@
 (* The conditions of the modelled functions are those the model was written
    against (regenerated from session.go / cache.go on every run). *)
 From Coq Require Import List String.
-From Sessions Require Import Gen.SessShape Proofs.ShapePinned.
+From Sessions Require Import Gen.SessShape Gen.LockPos Proofs.ShapePinned.
 
 Theorem sess_shape_pinned : sess_conditions = sess_conditions_v1.
 Proof. reflexivity. Qed.
@@ -10,5 +10,32 @@ Proof. reflexivity. Qed.
 Theorem idlock_uses_pinned : idlock_uses = idlock_uses_v1.
 Proof. reflexivity. Qed.
 
+(* Where the lock is taken (Gen/LockPos.v: the statements of Start and LogIn
+   that matter for the critical section, in source order with their blocks):
+   the table is the one the model was written against, ... *)
+Theorem lock_events_pinned : lock_events = lock_events_v1.
+Proof. reflexivity. Qed.
+
+(* ... and, whatever else it says: in Start, `Lock(x)`, `defer Unlock(x)` and
+   `sessions.Get(x)` on the same expression stand directly after one another in
+   one block; before them the function only assigns and returns (it touches
+   neither the session table nor the lock manager); after them there is no
+   further use of the lock manager, nothing deferred or run as a goroutine, no
+   function literal. So every access Start makes to the session table lies
+   between taking the lock on the presented ID and the deferred release. *)
+Theorem start_lock_precedes_get :
+  lock_shape lev_inert "get" true (events_of "Start" lock_events).
+Proof. apply lock_shapeb_sound. vm_compute. reflexivity. Qed.
+
+(* In LogIn, `Lock(x)`, `defer Unlock(x)` and the call of RegenerateID stand
+   directly after one another in one block; before them LogIn only assigns,
+   returns and stores the session (the user), after them it only returns. *)
+Theorem login_lock_brackets_regenerate :
+  lock_shape lev_inert_or_set "regenerate" false (events_of "Session.LogIn" lock_events).
+Proof. apply lock_shapeb_sound. vm_compute. reflexivity. Qed.
+
 Print Assumptions sess_shape_pinned.
 Print Assumptions idlock_uses_pinned.
+Print Assumptions lock_events_pinned.
+Print Assumptions start_lock_precedes_get.
+Print Assumptions login_lock_brackets_regenerate.
